@@ -26,7 +26,7 @@ ASSUMPTIONS = [
     'by the statement and are not compared',
 ]
 ANCHORS = ['Table.concat', 'concat']
-REQUIRED = ['non_disjoint_under_relaxed_profile', 'hollow_operand_cases', 'hollow_operand_concatenated', 'concat_calls', 'operand_list_reused', 'branch_padding', 'branch_resort',
+REQUIRED = ['names_shared_between_the_axes', 'non_disjoint_under_relaxed_profile', 'hollow_operand_cases', 'hollow_operand_concatenated', 'concat_calls', 'operand_list_reused', 'branch_padding', 'branch_resort',
             'branch_passthrough', 'non_disjoint_refused', 'via_biom_concat',
             'via_table_concat', 'single_table_arg', 'axis_sample',
             'axis_observation', 'k1', 'k2', 'k3plus']
@@ -58,6 +58,7 @@ def run_case(ctx, index):
     # one operand that has ids on the concatenation axis only (its other
     # axis is empty): those ids still belong in the result, all zero
     hollow = r.randrange(k) if (k >= 2 and index % 11 == 6) else None
+    all_ax = []
     for j in range(k):
         # concat-axis ids: disjoint by construction, different lengths
         n_ax = r.randint(1, 4)
@@ -68,6 +69,19 @@ def run_case(ctx, index):
             if style == 'long' or (style == 'mixed' and q % 2):
                 base = base + '_' + 'x' * r.randint(3, 12) + 'é'
             ax_ids.append(base)
+        all_ax.append(ax_ids)
+    if index % 7 == 3:
+        # the same names on both axes (feature-by-feature tables): the
+        # other-axis ids are drawn from the concat-axis ids of all operands
+        flat = [i for a in all_ax for i in a]
+        universe = r.sample(flat, r.randint(1, len(flat))) + \
+            r.sample(universe, r.randint(0, min(2, len(universe))))
+        universe = list(dict.fromkeys(universe))
+        r.shuffle(universe)
+        ctx.count('names_shared_between_the_axes')
+    for j in range(k):
+        ax_ids = all_ax[j]
+        n_ax = len(ax_ids)
         if other_mode == 'identical' or j == 0 and other_mode != 'disjoint':
             o_ids = list(universe)
         elif other_mode == 'permuted':
